@@ -134,6 +134,19 @@ def ecdsa_jobs(chk, n_each=1):
                 elif mut == "emptysig":
                     stack_sig = b""
                 add("%s:%s:ht%02x:%s:%s:%s" % (sv, shape, ht, enc, keyform, mut), script, [stack_sig], flags, sv, sp, **kw)
+    # every (input position, number of outputs, hash type) cell with a plainly valid signature: what SINGLE / NONE / ANYONECANPAY blank out
+    # depends on the position of the input among several and on the outputs before and after it
+    for sv in ("BASE", "WITNESS_V0"):
+        for n_in in (2, 3):
+            for nin in range(n_in):
+                for n_out in (1, 2, 3):
+                    for ht in (1, 2, 3, 0x81, 0x82, 0x83):
+                        sec = rng.randrange(1, btc.N); key = btc.pubkey_create(sec)
+                        script = push(key) + O("CHECKSIG")
+                        sp = Spend(rng, n_in, n_out, nin, spk=b"\x51", witness=(sv == "WITNESS_V0"))
+                        d = btc.sighash_legacy(sp.tx, nin, script, ht) if sv == "BASE" else btc.sighash_bip143(sp.tx, nin, script, sp.amount, ht)
+                        r, s_ = btc.ecdsa_sign(sec, d)
+                        add("%s:cell:in%d/%d:out%d:ht%02x" % (sv, nin, n_in, n_out, ht), script, [btc.der_encode(r, s_) + bytes([ht])], [], sv, sp)
     # FindAndDelete: the signature also occurs inside the (legacy) script
     for i in range(30 if quick else 400):
         sec = rng.randrange(1, btc.N); key = btc.pubkey_create(sec)
